@@ -1,9 +1,11 @@
 import Driver.OpsSteps
+import Driver.OpsValidate
 
 open Lean Df.Codec
 
 def ops : List (String × (Json → R Json)) :=
   [("step", Df.Ops.opStep),
+   ("validate", Df.Ops.opValidate),
    ("ping", fun j => do return Json.mkObj [("ok", encPkg (← decPkg (← j.getObjVal? "pkg")))])]
 
 def handle (line : String) : String :=
